@@ -45,7 +45,8 @@ def sweep(ctx: fw.Ctx, pid: str):
                    "leading_ws": text[:1].isspace()}
             ctx.fail(key, {"text": text, **info, "output": res["output"]},
                      f"{cl} {det}: {text!r} -> {res['output']!r}" if res["output"] is not None
-                     else f"{cl} {det}: {text!r}: {res['fails'].get('raises')}")
+                     else f"{cl} {det}: {text!r}: {res['fails'].get('raises')}",
+                     case=f"{info['template']}|{info['gap']}|{info['variant']}")
     fragment_probes(ctx, pid)
     if not ctx.quick:
         attributed_part(ctx, pid, prog.enumerate_adjacent_pairs())
@@ -86,8 +87,11 @@ def attributed_part(ctx: fw.Ctx, pid: str, stream):
                 key = {"clause": cl, "detail": det, "parent": "<interaction>", "before": "", "after": "",
                        "leading_ws": text[:1].isspace(),
                        "contexts": sorted({i["parent"] for i in info["injections"]})}
+            case = None
+            if info.get("template") != "random":
+                case = info["template"] + "|" + "+".join(f"{i['gap']}:{i['variant']}" for i in info["injections"])
             ctx.fail(key, {"text": text, "base": base, **info, "output": res["output"]},
-                     f"{cl} {det}: {text!r} -> {res['output']!r}")
+                     f"{cl} {det}: {text!r} -> {res['output']!r}", case=case)
 
 
 def common(ctx: fw.Ctx, pid: str):
